@@ -230,7 +230,34 @@ spif_url_dup(spif_url_t self)
     spif_url_t tmp;
 
     ASSERT_RVAL(!SPIF_URL_ISNULL(self), (spif_url_t) NULL);
-    tmp = spif_url_new_from_str(SPIF_STR(self));
+    /* Copy the text and the components as they are; parsing the text again would crash on an
+       empty URL and would lose components changed through the setters. */
+    tmp = spif_url_new();
+    if (!SPIF_PTR_ISNULL(SPIF_STR(self)->s)) {
+        spif_str_init_from_ptr(SPIF_STR(tmp), SPIF_STR_STR(self));
+        spif_obj_set_class(SPIF_OBJ(tmp), SPIF_CLASS_VAR(url));
+    }
+    if (!SPIF_STR_ISNULL(self->proto)) {
+        tmp->proto = spif_str_dup(self->proto);
+    }
+    if (!SPIF_STR_ISNULL(self->user)) {
+        tmp->user = spif_str_dup(self->user);
+    }
+    if (!SPIF_STR_ISNULL(self->passwd)) {
+        tmp->passwd = spif_str_dup(self->passwd);
+    }
+    if (!SPIF_STR_ISNULL(self->host)) {
+        tmp->host = spif_str_dup(self->host);
+    }
+    if (!SPIF_STR_ISNULL(self->port)) {
+        tmp->port = spif_str_dup(self->port);
+    }
+    if (!SPIF_STR_ISNULL(self->path)) {
+        tmp->path = spif_str_dup(self->path);
+    }
+    if (!SPIF_STR_ISNULL(self->query)) {
+        tmp->query = spif_str_dup(self->query);
+    }
     return tmp;
 }
 
